@@ -36,7 +36,9 @@ def jobs_for(shapes: list, seed: int) -> list:
         ts = CH.types_of_kind(s["kind"])
         if len(s["series"]) != 1:
             ts = [t for t in ts if "PIE" not in t]
-        for k, site in enumerate(("AddChart", "ReplaceData", "ReuseData", "StagedData")):
+        for k, site in enumerate(("AddChart", "ReplaceData", "ReuseData", "StagedData", "Replace1904")):
+            if site == "Replace1904" and not (s["kind"] == "cat" and s["catKind"] == "date"):
+                continue
             if site == "ReuseData" and len(s["series"]) < 2:
                 continue
             if site == "StagedData" and (not s["series"] or (s["kind"] == "cat" and len(s["cats"]) < 2 and not any(c["subs"] for c in s["cats"]))):
@@ -210,7 +212,7 @@ def main() -> int:
         need_col = 703 if thorough else 27
         if maxcol < need_col or maxdepth < 4 or kinds != {"cat", "xy", "bubble"} or not tot.get("points") or tot.get("cols") != 16384:
             raise E.MachineryError("vacuous: maxcol=%d depth=%d kinds=%s points=%s cols=%s" % (maxcol, maxdepth, kinds, tot.get("points"), tot.get("cols")))
-        if not {"AddChart", "ReplaceData", "ReuseData", "StagedData"} <= {r["site"] for r in nontrivial}:
+        if not {"AddChart", "ReplaceData", "ReuseData", "StagedData", "Replace1904"} <= {r["site"] for r in nontrivial}:
             raise E.MachineryError("vacuous: a site was never observed")
     smp = [r for r in nontrivial if r["data"]["kind"] == "bubble" and len(r["obs"]["sers"]) == 3][:1] + \
           [r for r in nontrivial if len(r["obs"]["sers"][0]["cat"]["lvls"]) == 3][:1]
